@@ -286,6 +286,25 @@ def check(rep, tier, seed):
                 if got != expect:
                     rep.violate("digest-short-reads", {"op": "hash_file", "size": len(data), "read_plan": plan}, expect, got, "digest depends on how read() chunks the file")
 
+        # ---------------------------------------------------------------- (ii-b) bytes are bytes, whatever the file is called
+        # media folders hold XML sidecars and manifests of other tools: CR LF, a byte-order mark, a trailing NUL are hashed as they are
+        odd = []
+        for name, data in (("sidecar.xml", b"<?xml version='1.0'?>\r\n<a>\r\n</a>\r\n"), ("legacy.mhl", b"\xef\xbb\xbf<hashlist>\r\n</hashlist>\r"),
+                           ("notes.txt", b"one\r\ntwo\n\x00"), ("ascmhl_chain.xml", b"\r\n\r\n")):
+            p = os.path.join(folder, name)
+            with open(p, "wb") as fh:
+                fh.write(data)
+            odd.append((p, data))
+            for fmt in ALL7:
+                expect = independent_digest(fmt, p, data)
+                got = {"hash_file": H.hash_file(p, fmt), "multi1": H.multiple_format_hash_file(p, [fmt])[fmt]}
+                rep.case(("odd-name", name, fmt))
+                rep.count("loop.oddname")
+                for ep, g in got.items():
+                    if g != expect:
+                        rep.violate(f"digest-{ep}-by-name", {"op": ep, "fmt": fmt, "file": name, "size": len(data)}, expect, g,
+                                    f"{ep}({fmt}) of {name} is not the digest of its bytes")
+        files += odd
         # ---------------------------------------------------------------- (ii-c) the same path with other bytes
         # a digest is a function of the bytes that are in the file NOW: rewrite files in place (same inode, same length,
         # time stamps put back) and hash them again through every entry point of the same process
